@@ -144,10 +144,12 @@ let rec atoms_of_string (s : string) : string list =
    this point (the only accepted replies that occur here are the real one, split or padded). *)
 let parse_value_as (real : string) (t : char list) : bool =
   let s = string_of_cl t in
+  (not (String.contains s '"')) &&   (* smt/parser.rs has no string literals in expressions *)
   (match parse_sx s with L [L [_; _]] -> true | _ -> false | exception Bad -> false)
   && (real = "" || atoms_of_string s = atoms_of_string real)
 let parse_core_as (real : string) (t : char list) : bool =
   let s = string_of_cl t in
+  (not (String.contains s '"')) &&
   (match parse_sx s with L _ -> true | _ -> false | exception Bad -> false)
   && (real = "" || atoms_of_string s = atoms_of_string real)
 
@@ -292,7 +294,13 @@ let handle (c : Sexp.t) : string =
       let by_model = if same o_cur impl then " (exactly what the model of the current code predicts)" else " (NOT predicted by the model of the current code)" in
       Registry.result ~id ~status:"fail" ~key ~detail:(what ^ by_model ^ "; " ^ detail) ()
   | Ok () ->
+      let emitted_nb = naive_balance emitted and emitted_ab = aware_balance emitted in
       if same o_fix impl then Registry.result ~id ~status:"ok" ~key:(impl.cls ^ ":" ^ impl.sub) ~detail ()
+      else if (not eof) && emitted_nb > 0 && emitted_ab <= 0 && impl.cls = "err" && impl.sub = "from-solver" && sent_error_message = Some impl.text then
+        (* A complete error reply whose message contains '(': outside the reader model (its count_parens is the naive
+           one of today's code, which blocks here: known finding hang:open-paren-inside-string).  A reader with a
+           string-aware count reports the error, message intact: that satisfies the property. *)
+        Registry.result ~id ~status:"ok" ~key:"outside-model:open-paren-inside-string" ~detail ()
       else if same o_cur impl then Registry.result ~id ~status:"ok" ~key:("cur-only:" ^ impl.cls ^ ":" ^ impl.sub) ~detail ()
       else Registry.result ~id ~status:"diff" ~key:("model-mismatch:" ^ fault_kind) ~detail ()
 
